@@ -205,6 +205,26 @@ Proof.
   apply value_inj; [apply W2 | apply W12 |]. rewrite V2, V1, V12. ring.
 Qed.
 
+(** subtracting an amount not larger than the time and adding it again returns the original time *)
+Lemma ct_sub_add_roundtrip (c : ctQ) (t : Q) :
+  wf c -> 0 <= t -> t <= value c -> (ticks c <= 2 ^ 64 - 2)%Z ->
+  exists c1 c2, ct_sub_pos c t = Ok c1 /\ ct_add_pos c1 t = Ok c2 /\
+                ticks c2 = ticks c /\ fraction c2 == fraction c.
+Proof.
+  intros W Hpos Hle Hmax.
+  assert (Hmax1 : (ticks c <= 2 ^ 64 - 1)%Z) by lia.
+  destruct (ct_sub_pos_spec c t W Hpos Hle Hmax1) as [c1 [E1 [W1 V1]]].
+  assert (Hb : value c1 + t < inject_Z (2 ^ 64)).
+  { rewrite V1. destruct W as [T [G1 G2]]. unfold value.
+    assert (inject_Z (ticks c) <= inject_Z (2 ^ 64 - 2)) by (rewrite <- Zle_Qle; lia).
+    assert (inject_Z (2 ^ 64 - 2) + 1 < inject_Z (2 ^ 64)).
+    { change 1 with (inject_Z 1). rewrite <- inject_Z_plus, <- Zlt_Qlt. lia. }
+    lra. }
+  destruct (ct_add_pos_spec c1 t W1 Hpos Hb) as [c2 [E2 [W2 V2]]].
+  exists c1, c2. split; [assumption|]. split; [assumption|].
+  apply value_inj; [apply W2 | apply W |]. rewrite V2, V1. ring.
+Qed.
+
 (** ** ordering agrees with ticks + fraction *)
 Lemma ct_cmp_spec (a b : ctQ) :
   frac_ok a -> frac_ok b -> ct_cmp a b = Some (value a ?= value b).
